@@ -839,7 +839,7 @@ func (x *Exec) execLookup(fr *Frame, st *State, ins *ssa.Lookup) {
 		return
 	}
 	m := x.get(fr, ins.X).(VScalar).T
-	x.guardCheck(st, x.mapGuard(m), false, ins.Pos(), "lookup in the map")
+	x.guardCheck(st, x.mapGuardT(st, m, ins.X.Type()), false, ins.Pos(), "lookup in the map")
 	key := x.keyTerm(x.get(fr, ins.Index))
 	val, present := x.mapLookup(st, ins.X.Type(), m, key)
 	mt := ins.X.Type().Underlying().(*types.Map)
@@ -909,7 +909,7 @@ func (x *Exec) mapLen(st *State, t types.Type, m Term) Term {
 
 func (x *Exec) execMapUpdate(fr *Frame, st *State, ins *ssa.MapUpdate) {
 	m := x.get(fr, ins.Map).(VScalar).T
-	x.guardCheck(st, x.mapGuard(m), true, ins.Pos(), "update of the map")
+	x.guardCheck(st, x.mapGuardT(st, m, ins.Map.Type()), true, ins.Pos(), "update of the map")
 	x.panicCheck(st, "nil", ins.Pos(), Not(Eq(m, IntLit(0))))
 	key := x.keyTerm(x.get(fr, ins.Key))
 	x.mapStore(st, ins.Map.Type(), m, key, x.get(fr, ins.Value))
@@ -926,7 +926,7 @@ func (x *Exec) execRange(fr *Frame, st *State, ins *ssa.Range) {
 	fr.vals[ins] = x.get(fr, ins.X)
 	// counting facts: iterating an unmodified map visits exactly len(m) entries
 	m := x.get(fr, ins.X).(VScalar).T
-	x.guardCheck(st, x.mapGuard(m), false, ins.Pos(), "iteration over the map")
+	x.guardCheck(st, x.mapGuardT(st, m, ins.X.Type()), false, ins.Pos(), "iteration over the map")
 	dom, _, _, ks2, _ := mapNames(ins.X.Type())
 	d := x.heapGet(st, dom, ArrSort(SInt, ArrSort(ks2, SBool)))
 	st.ghost["$visited"] = VSet{empty}
